@@ -48,7 +48,54 @@ pub fn rand_cmp(rng: &mut Rng) -> String {
     format!("{}{}", sign, rand_number(rng))
 }
 
+thread_local! { static RECENT: std::cell::RefCell<Vec<String>> = std::cell::RefCell::new(Vec::new()); }
+
+fn remember(s: &str) {
+    RECENT.with(|r| { let mut r = r.borrow_mut(); if r.len() >= 24 { r.remove(0); } r.push(s.to_string()); });
+}
+
+/// a string RELATED to one used a moment ago: same file under another spelling, same text in another
+/// case, one the prefix / suffix / escaped form of the other ... (defects that depend on the relation
+/// between two arguments)
+pub fn related(rng: &mut Rng, bare: bool) -> Option<String> {
+    let base = RECENT.with(|r| { let r = r.borrow(); if r.is_empty() { None } else { Some(r[rng.below(r.len())].clone()) } })?;
+    let v = match rng.below(22) {
+        0 => format!("./{}", base),
+        1 => format!("{}/", base),
+        2 => base.replacen('/', "//", 1),
+        3 => base.replacen('/', "/./", 1),
+        4 => base.to_uppercase(),
+        5 => base.to_lowercase(),
+        6 => format!("{}i", base),
+        7 => format!("i{}", base),
+        8 => format!("{}/i", base),
+        9 => format!("{}*", base),
+        10 => base.chars().rev().collect(),
+        11 => format!("../{}", base),
+        12 => format!(".{}", base.trim_start_matches("../")),
+        13 => base.replace("./", ""),
+        14 => base.replace('\\', "\\\\").replace('"', "\\\""),
+        15 => format!("{}{}", base, base),
+        16 => base.chars().take(base.chars().count().saturating_sub(1)).collect(),
+        17 => format!("{}0", base),
+        18 => base.clone(),
+        19 => format!("{}.", base),
+        20 => format!("{}true", base),
+        _ => format!("{} ", base),
+    };
+    if v.is_empty() { return None; }
+    if bare && v.chars().any(|c| c.is_whitespace() || c == ')' || c == '\'' || c == '"') { return None; }
+    Some(v)
+}
+
 pub fn rand_word(rng: &mut Rng) -> String {
+    if rng.chance(1, 6) { if let Some(v) = related(rng, true) { return v; } }
+    let w = rand_word_base(rng);
+    remember(&w);
+    w
+}
+
+fn rand_word_base(rng: &mut Rng) -> String {
     let d = dict();
     if !d.is_empty() && rng.chance(1, 5) {
         let w = &d[rng.below(d.len())];
@@ -299,6 +346,13 @@ fn leaf_actions(rng: &mut Rng, no_direct: bool) -> Expression {
 }
 
 pub fn rand_string(rng: &mut Rng, hostile: bool) -> String {
+    if rng.chance(1, 6) { if let Some(v) = related(rng, false) { return v; } }
+    let w = rand_string_base(rng, hostile);
+    remember(&w);
+    w
+}
+
+fn rand_string_base(rng: &mut Rng, hostile: bool) -> String {
     let d = dict();
     if !d.is_empty() && rng.chance(1, 5) { return d[rng.below(d.len())].clone(); }
     if hostile && rng.chance(1, 3) {
@@ -307,7 +361,7 @@ pub fn rand_string(rng: &mut Rng, hostile: bool) -> String {
         let n = 1 + rng.below(5);
         (0..n).map(|_| H[rng.below(H.len())]).collect()
     } else {
-        rand_word(rng)
+        rand_word_base(rng)
     }
 }
 
@@ -474,9 +528,41 @@ pub fn rand_leaf(rng: &mut Rng, p: &TreeProfile) -> Expression {
     }
 }
 
+/// a test of the same kind as `e` with a related argument (subset / superset / disjoint / equal)
+fn sibling(rng: &mut Rng, e: &Expression) -> Option<Expression> {
+    use Expression as E;
+    Some(match e {
+        E::Test(Test::Perm(pc)) => {
+            let (PermCheck::Any(m) | PermCheck::AtLeast(m) | PermCheck::Equal(m)) = pc;
+            let bits = m.0.bits();
+            let b2 = match rng.below(4) { 0 => bits & (bits >> 1 | 0o444), 1 => bits | 0o222, 2 => bits & !(bits & bits.wrapping_neg()), _ => bits };
+            let m2 = Permission(Mode::from_bits(b2 & 0o7777).unwrap());
+            E::Test(Test::Perm(match (pc, rng.below(3)) { (PermCheck::Any(_), 0) | (_, 1) => PermCheck::Any(m2), (PermCheck::AtLeast(_), 0) | (_, 2) => PermCheck::AtLeast(m2), _ => PermCheck::Equal(m2) }))
+        }
+        E::Test(Test::Type(ts)) => {
+            const T: &[FileType] = &[FileType::Block, FileType::Character, FileType::Directory, FileType::Pipe, FileType::File, FileType::Link, FileType::Socket];
+            match rng.below(3) { 0 => E::Test(Test::Type(vec![T[rng.below(7)].clone()])), 1 => { let mut v = ts.clone(); v.push(T[rng.below(7)].clone()); E::Test(Test::Type(v)) }, _ => E::Test(Test::Type(ts.clone())) }
+        }
+        E::Test(Test::UserId(c)) => { let (Comparison::GreaterThan(n) | Comparison::LesserThan(n) | Comparison::Equal(n)) = c; let d = rng.below(3) as u32; E::Test(Test::UserId(rand_cmp_val(rng, n.saturating_add(d).saturating_sub(1)))) }
+        E::Test(Test::Size(c)) => { let (Comparison::GreaterThan(n) | Comparison::LesserThan(n) | Comparison::Equal(n)) = c; E::Test(Test::Size(rand_cmp_val(rng, n.clone()))) }
+        _ => return None,
+    })
+}
+
 pub fn rand_tree(rng: &mut Rng, size: usize, p: &TreeProfile) -> Expression {
     if size <= 1 {
         return rand_leaf(rng, p);
+    }
+    if size >= 2 && rng.chance(1, 7) {
+        // relations between operands: X op X, X op !X, !X op X, a test beside a sibling of its own kind
+        let l = rand_tree(rng, (size - 1).max(1) / 2 + 1, p);
+        let r = match rng.below(4) {
+            0 => l.clone(),
+            1 => op(Operator::Not(l.clone())),
+            2 => match sibling(rng, &l) { Some(s) => s, None => l.clone() },
+            _ => { let x = l.clone(); return match rng.below(3) { 0 => op(Operator::And(op(Operator::Not(x)), l)), 1 => op(Operator::Or(op(Operator::Not(x)), l)), _ => op(Operator::List(x, l)) }; }
+        };
+        return match rng.below(3) { 0 => op(Operator::And(l, r)), 1 => op(Operator::Or(l, r)), _ => op(Operator::List(l, r)) };
     }
     match rng.below(if p.exotic { 9 } else { 8 }) {
         0 | 1 => op(Operator::Not(rand_tree(rng, size - 1, p))),
@@ -495,13 +581,21 @@ pub fn rand_chain(rng: &mut Rng, n: usize) -> Expression {
     for i in 0..n {
         let r = rng.below(12);
         let idx = if rng.chance(1, 8) && i > 0 { rng.below(i) } else { i };   // repeat an earlier resource sometimes
+        if rng.chance(1, 10) {
+            // a name RELATED to an earlier one (./x, x/, x//y, X, xi, x/i, ../x vs .x ...), same terminator kind
+            if let Some(v) = related(rng, false) {
+                items.push(match rng.below(4) { 0 => E::Action(Action::FilePrint(v)), 1 => E::Action(Action::FilePrintNull(v)),
+                    2 => op(Operator::Or(E::Test(Test::Name(v)), E::Test(Test::True))), _ => op(Operator::Or(E::Test(Test::InsensitivePath(v)), E::Test(Test::True))) });
+                continue;
+            }
+        }
         let e = match r {
-            0 | 1 => E::Action(Action::FilePrint(format!("f{}", idx))),
+            0 | 1 => { let f = format!("d/f{}", idx); remember(&f); E::Action(Action::FilePrint(f)) }
             2 => E::Action(Action::FilePrintNull(format!("f{}", idx))),
             3 => E::Action(Action::FilePrintFormatted(format!("f{}", idx), nl_fmt(rng, true))),
             4 => E::Action(Action::FilePrintFormatted(format!("f{}", idx), nl_fmt(rng, false))),
             5 => if rng.chance(1, 4) { E::Test(Test::Name(["a\\b", "a\\\\b", "q\"x", "q\\\"x", "t\u{1}", "t\\x01"][rng.below(6)].to_string())) } else { E::Test(Test::Name(format!("n{}*", idx))) },
-            6 => E::Test(Test::Name(format!("n{}", idx))),
+            6 => { let f = format!("n{}", idx); remember(&f); E::Test(Test::Name(f)) }
             7 => E::Test(Test::InsensitiveName(format!("n{}*", idx))),
             8 => E::Test(Test::InsensitiveName(format!("N{}", idx))),
             9 => E::Test(Test::Path(format!("*/n{}", idx))),
